@@ -7,6 +7,10 @@ CONSTANTS
   MaxLen = 2
   MaxNest = 12
   Repl <- ReplQ
+  HistValues <- HistQ
+  ParValues <- ParQ
+  MaxKept = 3
+  SinkReuse = FALSE
 VIEW view
 PROPERTIES RoundTrip Canonical PrefixFree WrapperOK CountOK
 CONSTRAINT InitOut
